@@ -5,7 +5,7 @@ namespace AwsVerif.Threads
 /-- what a step of thread `t` can do to the record of another thread `k` -/
 def OtherRel (s : State) (k : Nat) (a b : Th) : Prop :=
   b = a ∨ b = { a with woken := true } ∨
-  (a.status = .notCreated ∧ ∃ nm, b = { status := .created, ord := s.nextOrd, wFunc := k, wArg := k, named := nm }) ∨
+  (a.status = .notCreated ∧ ∃ nm hn, b = { status := .created, ord := s.nextOrd, wFunc := k, wArg := k, named := nm, hasName := hn }) ∨
   (a.status = .exited ∧ b = { a with status := .joined })
 
 theorem exec_other (P : Prog) (s s' : State) (t : Nat) (i : Instr) (rest : List Instr)
@@ -110,7 +110,7 @@ theorem step_cases (P : Prog) (s s' : State) (t : Nat) (h : step P s t = some s'
 
 @[simp] theorem startStep_th (P : Prog) (s : State) (t : Nat) : (startStep P s t).th =
     upd s.th t { s.th t with status := .running, code := (P.body (s.th t).wFunc).map Instr.act,
-                             copyId := some t, named := false } := rfl
+                             copyId := some t, named := false, hasName := (s.th t).named || (s.th t).hasName } := rfl
 @[simp] theorem startStep_log (P : Prog) (s : State) (t : Nat) :
     (startStep P s t).log = .run t (s.th t).wArg :: s.log := rfl
 theorem atexitStep_nil (P : Prog) (s : State) (t : Nat) (hc : (s.th t).chain = []) : atexitStep P s t =
@@ -125,7 +125,7 @@ theorem atexitStep_cons (P : Prog) (s : State) (t c : Nat) (cs : List Nat) (hc :
   unfold funcEndStep; split <;> rfl
 
 theorem step_own (P : Prog) (s s' : State) (t : Nat) (h : step P s t = some s') : OwnStep s s' t := by
-  rcases step_cases P s s' t h with ⟨hs, rfl⟩ | ⟨hs, ht, _, rfl⟩ | ⟨hs, ht, _, rfl⟩ | ⟨hs, rfl⟩ | ⟨hs, _, rfl⟩ | ⟨hs, i, rest, _, he⟩
+  rcases step_cases P s s' t h with ⟨hs, rfl⟩ | ⟨hs, ht, _, rfl⟩ | ⟨hs, ht, _, rfl⟩ | ⟨hs, rfl⟩ | ⟨hs, _, _, rfl⟩ | ⟨hs, i, rest, _, he⟩
   · exact .start hs (by simp) (by simp) (by simp) (by simp)
   · exact .exit (Or.inl ⟨hs, ht⟩) (by simp) (by simp) (by simp) (by simp)
   · exact .funcEnd hs ht (by simp) (by simp) (by simp) (by simp)
@@ -140,7 +140,7 @@ theorem step_other (P : Prog) (s s' : State) (t : Nat) (h : step P s t = some s'
   intro k hk
   have triv : ∀ x : Th, OtherRel s k (s.th k) (upd s.th t x k) := by
     intro x; simp [hk, OtherRel]
-  rcases step_cases P s s' t h with ⟨_, rfl⟩ | ⟨_, _, _, rfl⟩ | ⟨_, _, _, rfl⟩ | ⟨_, rfl⟩ | ⟨_, _, rfl⟩ | ⟨_, i, rest, _, he⟩
+  rcases step_cases P s s' t h with ⟨_, rfl⟩ | ⟨_, _, _, rfl⟩ | ⟨_, _, _, rfl⟩ | ⟨_, rfl⟩ | ⟨_, _, _, rfl⟩ | ⟨_, i, rest, _, he⟩
   · simpa using triv _
   · simpa using triv _
   · simpa using triv _
@@ -153,7 +153,7 @@ theorem step_other (P : Prog) (s s' : State) (t : Nat) (h : step P s t = some s'
 theorem step_joinRet (P : Prog) (s s' : State) (t : Nat) (h : step P s t = some s') :
     ∀ k b, s'.log = .joinRet k b :: s.log → (s.th k).status = .exited ∧ (s'.th k).status = .joined ∧ b = t := by
   intro k b hl
-  rcases step_cases P s s' t h with ⟨_, rfl⟩ | ⟨_, _, _, rfl⟩ | ⟨_, _, _, rfl⟩ | ⟨_, rfl⟩ | ⟨_, _, rfl⟩ | ⟨_, i, rest, _, he⟩
+  rcases step_cases P s s' t h with ⟨_, rfl⟩ | ⟨_, _, _, rfl⟩ | ⟨_, _, _, rfl⟩ | ⟨_, rfl⟩ | ⟨_, _, _, rfl⟩ | ⟨_, i, rest, _, he⟩
   · simp at hl
   · simp at hl
   · simp at hl
